@@ -214,7 +214,7 @@ Fixpoint state_before (h : hstep) (ord : list hstep) (s : rstate) (conf : option
   match ord with
   | [] => s
   | x :: r =>
-    if (match x, h with HParse, HParse | HSubnets, HSubnets | HApi, HApi | HDns, HDns => true | _, _ => false end) then s
+    if (match x, h with HParse, HParse | HSubnets, HSubnets | HSubnetsNoAbort, HSubnetsNoAbort | HApi, HApi | HDns, HDns => true | _, _ => false end) then s
     else let '(s', c') := hexec s conf (x, P) in state_before h r s' c' P
   end.
 
